@@ -321,11 +321,11 @@ mut("c11_stale_hint_accepted_deep_in_map", "C11", [
 ], "body lines out of tick order deep in a long tempo map: an event behind its predecessor silently gets a time from the wrong tempo", also=("C15",))
 
 # ---------------------------------------------------------------------------------------- C18
-mut("c18_keyerror_escapes", "C18", [
-    ("chartparse/chart.py",
-     '''        if not all(tag in data_sections for tag in cls._required_header_tags):''',
-     '''        if not any(tag in data_sections for tag in cls._required_header_tags):'''),
-], "a text lacking one (not all) of the required sections: KeyError escapes", also=("C06",))
+mut("c18_str_of_tap_note_keyerror", "C18", [
+    ("chartparse/instrument.py",
+     '''            HOPOState.TAP: "T",
+''', ""),
+], "rendering a chart that contains a tap note: KeyError from str(event)")
 
 mut("c18_indexerror_on_empty_brace", "C18", [
     ("chartparse/chart.py",
